@@ -95,13 +95,17 @@ def table_bits(ctx):
             r = s["rhs"]
             if s["lhs"]["l"] == 0 and r["rv"] == "agg" and r.get("variant") == "Ok":
                 v = Sf.val(r["ops"][0])
-                facts = [(e, tr) for (e, tr, g) in Sf.bool_facts_at(bl["id"])]
-                str_true = ("((p1 BitAnd c:2048) Ne c:0)", True) in facts
-                eqs = [int(re.search(r"Eq c:(\d+)\)$", e).group(1)) for (e, tr) in facts if tr is True and re.search(r"\(\(\(p1 BitAnd c:255\) as usize\) Eq c:\d+\)$", e)]
+                fs = Sf.bool_facts_at(bl["id"])
+                from ..lib import interval_of, value_set
+                slo, shi, sex = interval_of(fs, "(p1 BitAnd c:2048)")
+                str_true = (slo is not None and slo >= 1) or 0 in sex
+                str_false = shi == 0
+                sizes = value_set(fs, "((p1 BitAnd c:255) as usize)")
                 if str_true:
                     got["str"] = v
-                elif eqs:
-                    got[eqs[0]] = v
+                elif sizes:
+                    for n_ in sizes:
+                        got[n_] = v
     want = {"str": "internal::column::ColumnType::Str{((p1 BitAnd c:255) as usize)}", 4: "internal::column::ColumnType::Int32{}",
             2: "internal::column::ColumnType::Int16{}", 1: "internal::column::ColumnType::Int16{}"}
     ctx.check(got == want, R2, "from_bitfield mapping", str(got), "from_bitfield maps %s; expected %s" % (got, want), ff.loc(), fn=ff.name)
